@@ -35,6 +35,7 @@ def build():
     uninterp spec fn of_kid(k: Kid) -> Option<%s>;
     open spec fn sp_syntax(&self) -> SyntaxNode { self.syntax }
     fn syntax(&self) -> (r: &SyntaxNode) { &self.syntax }
+    #[verifier::external_body] fn cast(syntax: SyntaxNode) -> (r: Option<Self>) { unimplemented!() }
 }
 ''' % (ty, ty))
     U.raw('pub mod ast { pub use super::*; }\n')
@@ -58,12 +59,13 @@ ensures r == bors(%s[3]),      //@C05,C06:for-body''' % (KS, KS))),
     ])
     n.impl('ast::IfStmt', [
         ('condition', dict(H, ret='r', spec='ensures if_shape(%s) ==> r == Some(%s[0]->E_0),      //@C05:if-condition' % (KS, KS))),
-        ('then_branch_block', dict(H, ret='r', spec='ensures r == block_at(%s, 1),' % KS)), ('then_branch_stmt', dict(H, ret='r', spec='ensures r == first::<Stmt>(%s),' % KS)),
+        ('body_at', dict(H, ret='r', closures=True, spec='ensures r == body_at_spec(%s, index as int),' % KS)),
+        ('then_branch_block', dict(H, ret='r', spec='ensures if_shape(%s) ==> r == (if is_block(%s[1]) { Some(%s[1]->E_0->BlockExpr_0) } else { None::<BlockExpr> }),' % (KS, KS, KS))), ('then_branch_stmt', dict(H, ret='r', spec='ensures if_shape(%s) ==> r == (if %s[1] is S { Some(%s[1]->S_0) } else { None::<Stmt> }),' % (KS, KS, KS))),
         ('true_body_block_or_stmt', dict(H, ret='r', spec='''requires if_shape(%s),           // the `panic!("Error in oq3_syntax")` of the body
-ensures !co_if_then_is_stmt(%s) ==> r == bors(%s[1]),      //@C05,C06:then-body''' % (KS, KS, KS))),
-        ('else_branch_block', dict(H, ret='r', spec='ensures r == block_at(%s, 2),' % KS)), ('else_branch_stmt', dict(H, ret='r', spec='ensures r == first::<Stmt>(%s),' % KS)),
+ensures r == bors(%s[1]),      //@C05,C06:then-body''' % (KS, KS))),
+        ('else_branch_block', dict(H, ret='r', spec='ensures if_shape(%s) ==> r == (if %s.len() == 3 && is_block(%s[2]) { Some(%s[2]->E_0->BlockExpr_0) } else { None::<BlockExpr> }),' % (KS, KS, KS, KS))), ('else_branch_stmt', dict(H, ret='r', spec='ensures if_shape(%s) ==> r == (if %s.len() == 3 && %s[2] is S { Some(%s[2]->S_0) } else { None::<Stmt> }),' % (KS, KS, KS, KS))),
         ('false_body_block_or_stmt', dict(H, ret='r', closures=True, spec='''requires if_shape(%s),
-ensures !co_if_then_is_stmt(%s) ==> r == (if %s.len() == 3 { Some(bors(%s[2])) } else { None::<BlockOrStmt> }),      //@C05,C06:else-body''' % (KS, KS, KS, KS))),
+ensures r == (if %s.len() == 3 { Some(bors(%s[2])) } else { None::<BlockOrStmt> }),      //@C05,C06:else-body''' % (KS, KS, KS))),
     ])
     e = U.file(EXT)
     e.impl('ast::BinExpr', [
